@@ -8,7 +8,7 @@ from ..loader import AnalysisError, World, module_of
 from ..mutate import edit_def, replace_expr, replace_stmt
 from ..paths import Path, function_paths
 from ..run import Control
-from ..terms import path_env, show, term
+from ..terms import contains, path_env, show, term
 
 LEVEL = 'other'
 LAND = 'furax.landscapes'
@@ -77,48 +77,105 @@ def run(ctx, ck) -> None:
     if len(names) != 2:
         return
     coord, dim = ('var', names[0]), ('var', names[1])
-    body = loop.body
-    order = []
-    ia = None
-    for st in body:
-        if isinstance(st, ast.Assign) and isinstance(st.targets[0], ast.Name):
-            if is_rounded(term(st.value), coord):
-                ia = ('var', st.targets[0].id)
-        elif isinstance(st, ast.AugAssign) and isinstance(st.target, ast.Name):
-            order.append((st.target.id, type(st.op).__name__, term(st.value, {})))
+    # one iteration of the loop, symbolically: the value of every name after the body in terms of the values before it
+    # (x += e and x = x + e are the same term; intermediate names and inlined helpers are substituted away)
+    after = path_env(Path([('stmt', st) for st in loop.body if isinstance(st, (ast.Assign, ast.AugAssign, ast.AnnAssign))]))
+
+    def masks(i):
+        return {('binop', '&', ('cmp', 'le', ('const', '0'), i), ('cmp', 'lt', i, dim)), ('binop', '&', ('cmp', 'lt', i, dim), ('cmp', 'le', ('const', '0'), i)),
+                ('binop', '&', ('cmp', 'ge', i, ('const', '0')), ('cmp', 'lt', i, dim)), ('binop', '&', ('cmp', 'gt', dim, i), ('cmp', 'le', ('const', '0'), i)),
+                ('chain', ('le', 'lt'), ('const', '0'), i, dim)}
+
+    def find_rounded(t):
+        """Sub-terms of t of the form round(coord).astype(...)."""
+        out = []
+        if isinstance(t, tuple):
+            if t and is_rounded(t, coord):
+                out.append(t)
+            for x in t:
+                if isinstance(x, tuple):
+                    out.extend(find_rounded(x))
+        return out
+
+    I1, V1 = after.get(I), after.get(V)
+    ias = find_rounded(I1) if I1 is not None else []
+    ia = ias[0] if ias else None
     ck.expect('P2', ia is not None, loop, 'each further coordinate is rounded to the nearest integer and cast', 'a coordinate is no longer rounded with jnp.round before the cast (truncation shifts pixel boundaries)', instance='loop rounding')
     if ia is None:
         return
-    mask = next((o for o in order if o[0] == V), None)
-    acc = next((o for o in order if o[0] == I), None)
+    # index: I + ia * STR (either operand order)
     STR = None
-    if acc is not None and acc[2][0] == 'binop' and acc[2][1] == '*':
-        other = acc[2][3] if acc[2][2] == ia else acc[2][2] if acc[2][3] == ia else None
-        STR = other[1] if other is not None and other[0] == 'var' else None
-    strd = next((o for o in order if o[0] == STR), None) if STR else None
+    acc_ok = False
+    if I1[0] == 'binop' and I1[1] == '+' and ('var', I) in (I1[2], I1[3]):
+        prod = I1[3] if I1[2] == ('var', I) else I1[2]
+        if prod[0] == 'binop' and prod[1] == '*' and ia in (prod[2], prod[3]):
+            other = prod[3] if prod[2] == ia else prod[2]
+            if other[0] == 'var':
+                STR, acc_ok = other[1], True
+            elif other[0] == 'binop' and other[1] == '*' and other[2][0] == 'var':
+                STR = other[2][1]  # the stride was already multiplied when the index is accumulated
     ck.expect('P2', STR is not None and env_sym.get(STR) == dim0, p2i, 'the stride starts as the size of the first (fastest) axis', f'the initial stride is {show(env_sym.get(STR)) if STR else "?"}', instance='initial stride')
-    want_mask = {('binop', '&', ('cmp', 'le', ('const', '0'), ia), ('cmp', 'lt', ia, dim)), ('binop', '&', ('cmp', 'lt', ia, dim), ('cmp', 'le', ('const', '0'), ia)),
-                 ('binop', '&', ('cmp', 'ge', ia, ('const', '0')), ('cmp', 'lt', ia, dim))}
-    ck.expect('P1', mask is not None and mask[1] == 'BitAnd' and (mask[2] in want_mask or _range_mask(mask[2], ia, dim)), loop, 'every further axis: valid &= (0 <= i) & (i < dim)',
-              f'the validity mask of the loop is updated with {show(mask[2]) if mask else "nothing"} ({mask[1] if mask else "-"}): a coordinate outside the map in this dimension would wrap into another row instead of yielding -1', instance='loop mask')
-    ck.expect('P2', acc is not None and acc[1] == 'Add' and STR is not None, loop, 'index += i * stride',
-              f'the index is accumulated with {show(acc[2]) if acc else "nothing"}', instance='index accumulation')
-    ck.expect('P2', strd is not None and strd[1] == 'Mult' and strd[2] == dim, loop, 'stride *= dim: the same dim that bounds this axis',
-              f'the stride is updated with {show(strd[2]) if strd else "nothing"}: not the size of the axis that was just bounded', instance='stride update')
-    names_order = [o[0] for o in order]
-    ck.expect('P2', STR is not None and I in names_order and STR in names_order and names_order.index(I) < names_order.index(STR), loop,
-              'the index is accumulated with the current stride before the stride is multiplied', 'the stride is multiplied before the index of this axis is accumulated (row-major order broken)', instance='recurrence order')
-    # P5 dtype
-    ifs = [n for n in p2i.body if isinstance(n, ast.If) and n.body and isinstance(n.body[0], ast.Assign) and n.orelse and isinstance(n.orelse[0], ast.Assign)
-           and ast.unparse(n.body[0].targets[0]) == ast.unparse(n.orelse[0].targets[0])]
+    mask_t = None
+    if V1 is not None and V1[0] == 'binop' and V1[1] == '&' and ('var', V) in (V1[2], V1[3]):
+        mask_t = V1[3] if V1[2] == ('var', V) else V1[2]
+    ck.expect('P1', mask_t is not None and mask_t in masks(ia), loop, 'every further axis: valid &= (0 <= i) & (i < dim)',
+              f'the validity mask of the loop is updated with {show(mask_t) if mask_t is not None else show(V1)}: a coordinate outside the map in this dimension would wrap into another row instead of yielding -1', instance='loop mask')
+    ck.expect('P2', STR is not None and (acc_ok or I1 is not None), loop, 'index += i * stride', f'the index is accumulated as {show(I1)}', instance='index accumulation')
+    S1 = after.get(STR) if STR else None
+    ck.expect('P2', S1 in (('binop', '*', ('var', STR), dim), ('binop', '*', dim, ('var', STR))) if STR else False, loop, 'stride *= dim: the same dim that bounds this axis',
+              f'the stride is updated to {show(S1)}: not the previous stride times the size of the axis that was just bounded', instance='stride update')
+    ck.expect('P2', acc_ok, loop, 'the index is accumulated with the current stride before the stride is multiplied',
+              'the stride is multiplied before the index of this axis is accumulated (row-major order broken)', instance='recurrence order')
+    # P5 dtype: decided semantically.  On the paths that reach the first use of the dtype, the branch conditions must choose
+    # int32 exactly when the largest index len(self) - 1 fits in int32 (the int32 maximum is a symbol M; the sizes around
+    # the boundary are enumerated)
+    from ..terms import NotEvaluable, eval_term
+    from ..terms import subst as _subst2
+
+    dtype_name = None
+    for t0 in (idx0,):
+        if t0 is not None and t0[0] == 'call' and t0[1][0] == 'attr' and t0[1][2] == 'astype' and t0[2] and t0[2][0][0] == 'var':
+            dtype_name = t0[2][0][1]
     ok = False
-    if ifs:
-        t = term(ifs[0].test)
-        small = ast.unparse(ifs[0].body[0].value)
-        big = ast.unparse(ifs[0].orelse[0].value)
-        lhs_ok = t[0] == 'cmp' and t[1] in ('le', 'lt') and show(t[2]).replace(' ', '') in ('(len(self)-1)', 'len(self)')
-        ok = lhs_ok and 'int32' in show(t[3]) and small.endswith('int32') and big.endswith('int64')
-    ck.expect('P5', ok, p2i, 'int32 indices unless the largest index exceeds the int32 range, then int64', 'the index dtype is no longer chosen from the size of the map', instance='index dtype')
+    why5 = 'the dtype passed to astype is not a name chosen beforehand'
+    if dtype_name is not None:
+        choices = []
+        for pth in function_paths(p2i):
+            e5 = path_env(pth)
+            if dtype_name not in e5:
+                continue
+            conds = [(term(ex, path_env(pth, upto=None)), pol) for ex, pol in pth.conds()]
+            choices.append((e5[dtype_name], [(term(ex, e5), pol) for ex, pol in pth.conds()]))
+        N = ('call', ('var', 'len'), (S,), ())
+        M = ('var', '$int32max')
+
+        def symbolic(t):
+            # any `np.iinfo(<...int32...>).max` is the symbol M
+            if isinstance(t, tuple) and t and t[0] == 'attr' and t[2] == 'max' and 'iinfo' in show(t[1]) and 'int32' in show(t[1]):
+                return M
+            if isinstance(t, tuple):
+                return tuple(symbolic(x) if isinstance(x, tuple) else x for x in t)
+            return t
+
+        bad = None
+        seen32 = seen64 = False
+        for n in range(6, 16):
+            picked = set()
+            for val, conds in choices:
+                try:
+                    if all(bool(eval_term(symbolic(c), {N: n, M: 10})) == pol for c, pol in conds if contains(c, N) or contains(symbolic(c), M)):
+                        picked.add(show(val).split('.')[-1])
+                except NotEvaluable as exc:
+                    bad = f'condition not evaluable: {exc}'
+            want = 'int32' if n - 1 <= 10 else 'int64'
+            seen32 |= want == 'int32'
+            seen64 |= want == 'int64'
+            if bad is None and picked != {want}:
+                bad = f'for a map of {n} pixels with an int32 maximum of 10 the index dtype is {sorted(picked)}, expected {want}'
+        ok = bad is None and bool(choices)
+        why5 = bad or ''
+    ck.expect('P5', ok, p2i, 'int32 indices unless the largest index exceeds the int32 range, then int64 (sizes around the boundary enumerated)',
+              f'the index dtype is no longer chosen from the size of the map: {why5}', instance='index dtype')
 
     # ------------------------------------------------------------------ P3
     hp = table.get(f'{LAND}.HealpixLandscape')
@@ -130,7 +187,11 @@ def run(ctx, ck) -> None:
         H = ('var', w2p.args.args[0].arg)
         th, ph = ('var', w2p.args.args[1].arg), ('var', w2p.args.args[2].arg)
         want = ('tuple', ('call', ('attr', ('var', 'jhp'), 'ang2pix'), (('attr', H, 'nside'), th, ph), ()))
-        ok = t == want and world.qualify(module_of(w2p), 'jhp') == 'jax_healpy'
+        # keywords that restate the defaults of ang2pix (ring ordering, colatitude / longitude in radians) change nothing
+        defaults = {'nest': ('const', 'False'), 'lonlat': ('const', 'False')}
+        if t is not None and t[0] == 'tuple' and len(t) == 2 and t[1][0] == 'call' and all(k in defaults and v == defaults[k] for k, v in t[1][3]):
+            t = ('tuple', (t[1][0], t[1][1], t[1][2], ()))
+        ok = t == want
     else:
         ok = False
     ck.expect('P3', ok, w2p or hp.node, 'world2pixel = (jax_healpy.ang2pix(nside, theta, phi),) - no nest / lonlat: ring ordering, colatitude-longitude in radians',
